@@ -191,6 +191,8 @@ pub struct Session {
     pub seq: usize,
     pub scen: String,
     pub expected_updates: usize,
+    /// cookie jar (device) -> person; empty = every jar is its own person
+    pub person: Vec<usize>,
 }
 
 fn multipart(fields: &[(&str, &str)]) -> (String, Vec<u8>) {
@@ -286,7 +288,9 @@ impl Session {
                 dbcmds.push(json!({"cmd": e["cmd"], "coll": e["coll"], "keys": keys, "task": is_task_write, "n": e["n"]}));
             }
         }
-        let mut rec = json!({"kind": "http", "id": format!("{}#{}", self.scen, self.seq), "p": p.map(|x| x as i64 + 1).unwrap_or(0), "op": op, "args": args, "db": dbcmds,
+        let person = |jar: usize| self.person.get(jar).copied().unwrap_or(jar);
+        let mut rec = json!({"kind": "http", "id": format!("{}#{}", self.scen, self.seq), "p": p.map(|x| person(x) as i64 + 1).unwrap_or(0),
+                         "dev": p.map(|x| x as i64 + 1).unwrap_or(0), "op": op, "args": args, "db": dbcmds,
                          "had_cookie": cookie.is_some(), "status": r.status, "body": body_j, "cookie_after": p.map(|i| self.jars[i].is_some()).unwrap_or(false),
                          "me": me_before});
         if self.final_phase {
@@ -560,6 +564,46 @@ fn race_stale_write(s: &mut Session) {
     s.settle(false);
 }
 
+/// F12: a session outlives the account it was issued for.  Person A is logged in on two devices (two cookie jars), vacates
+/// the account name on the first (account deletion, or a rename), person B registers the vacated name - and A's second
+/// device, whose cookie still says that name, is now inside B's account.  No timing is involved: every request runs alone.
+fn stale_session(s: &mut Session, by_rename: bool) {
+    s.jars = vec![None; 4];
+    s.me = vec!["-".to_string(); 4];
+    s.person = vec![0, 1, 2, 0];          // jar 3 is the second device of person 0
+    s.ctrl.cmd(json!({"cmd": "reset"}));
+    s.scen = if by_rename { "stale-session-rename".into() } else { "stale-session-delete".into() };
+    s.seq = 0;
+    s.expected_updates = 0;
+    s.out.push(json!({"kind": "reset", "id": s.scen, "principals": 2, "race": "stale-session"}));
+    s.req(Some(0), "register", json!({"username": "ssalice", "password": "pw-A-1"}));
+    s.req(Some(0), "login", json!({"username": "ssalice", "password": "pw-A-1"}));
+    s.req(Some(3), "login", json!({"username": "ssalice", "password": "pw-A-1"}));
+    s.req(Some(0), "add", json!({"name": "MINE", "parsing": "Naive", "class": "good", "code": "s(p1k1s0).ac(p1k1s0,c(v))."}));
+    s.settle(true);
+    s.req(Some(3), "list", json!({}));                      // the second device sees A's own problem: fine
+    if by_rename {
+        s.req(Some(0), "update", json!({"username": "sscarol", "password": "pw-A-1"}));
+    } else {
+        s.req(Some(0), "delete_account", json!({}));
+    }
+    s.settle(true);
+    s.req(Some(1), "register", json!({"username": "ssalice", "password": "pw-B-2"}));
+    s.req(Some(1), "login", json!({"username": "ssalice", "password": "pw-B-2"}));
+    s.req(Some(1), "add", json!({"name": "THEIRS", "parsing": "Naive", "class": "good", "code": "s(p2k1s0).ac(p2k1s0,c(f))."}));
+    s.settle(true);
+    // A's second device still carries the cookie issued for "ssalice"
+    s.req(Some(3), "info", json!({}));
+    s.req(Some(3), "list", json!({}));
+    s.req(Some(3), "get", json!({"name": "THEIRS"}));
+    s.settle(true);
+    s.req(Some(3), "delete", json!({"name": "THEIRS"}));
+    s.settle(true);
+    s.req(Some(1), "list", json!({}));
+    s.settle(true);
+    s.person = Vec::new();
+}
+
 /// two users own a problem with the SAME name; one of them runs a slow task; what does the other one see meanwhile?
 fn slow_task_scenario(s: &mut Session) {
     s.jars = vec![None; 3];
@@ -621,7 +665,7 @@ pub fn main(args: &[String]) {
         }
     };
     let mut rng = StdRng::seed_from_u64(env_seed() ^ 0x5e2_0e16);
-    let mut s = Session { me: vec!["-".to_string(); 3], final_phase: false, ctrl: Ctrl::connect(), jars: vec![None; 3], out: Vec::new(), seq: 0, scen: String::new(), expected_updates: 0 };
+    let mut s = Session { me: vec!["-".to_string(); 3], final_phase: false, ctrl: Ctrl::connect(), jars: vec![None; 3], out: Vec::new(), seq: 0, scen: String::new(), expected_updates: 0, person: Vec::new() };
     happy_path(&mut s);
     let n = if tier == "thorough" { 220 } else { 28 };
     for k in 0..n {
@@ -630,12 +674,14 @@ pub fn main(args: &[String]) {
     slow_task_scenario(&mut s);
     race_rename_window(&mut s);
     race_stale_write(&mut s);
+    stale_session(&mut s, false);
+    stale_session(&mut s, true);
     let mut f = std::io::BufWriter::new(std::fs::File::create(&out).expect("cannot create out file"));
     for r in &s.out {
         writeln!(f, "{}", r).unwrap();
     }
     f.flush().unwrap();
-    eprintln!("server: {} scenarios, {} records", n + 4, s.out.len());
+    eprintln!("server: {} scenarios, {} records", n + 6, s.out.len());
     drop(procs);
     std::process::exit(0);
 }
